@@ -686,7 +686,9 @@ def stream_skeleton(ctx, acc, docs):
             plan.append(("styling", inp, rp, sk[1][1], None))
         else:
             acc.count("K_styling_of_single_positioning_writer(text-align removed first: not compared)")
-        if xdoc is not None and xdoc[0] == "ok":
+        if xdoc is not None and xdoc[0] == "ok" and not ctx.thorough and rng.random() >= 0.6:
+            acc.count("K_tree_tie_not_sampled(quick tier compares 60 % of the main-writer documents; thorough all)")
+        elif xdoc is not None and xdoc[0] == "ok":
             # round 4: <layout> and <body> of the tree (insertion order) against DfxpSkelBody.tree_of of the set the writer
             # traversed; the layout attributes of a <region> are taken from the tree
             rg = sk[1][2]
